@@ -9,6 +9,7 @@ import Teleport.Drv.C05h
 import Teleport.Drv.C06
 import Teleport.Drv.C07
 import Teleport.Drv.C08
+import Teleport.Drv.C08p
 import Teleport.Drv.C09
 import Teleport.Drv.C10
 import Teleport.Drv.C11
@@ -26,7 +27,7 @@ open Teleport.Drv
 
 /-- every case kind of the line protocol with its model handler (one list per property module). -/
 def allHandlers : List (String × (Fields → String)) :=
-  handlersC01 ++ handlersC02 ++ handlersC03 ++ handlersC05 ++ handlersC05j ++ handlersC05t ++ handlersC05w ++ handlersC05h ++ handlersC06 ++ handlersC07 ++ handlersC08 ++ handlersC09 ++ handlersC10 ++ handlersC11 ++ handlersC12 ++ handlersC13 ++ handlersC13G ++ handlersC14 ++ handlersC15 ++ handlersC16 ++ handlersC17 ++ handlersC18 ++ handlersC19 ++ handlersC20
+  handlersC01 ++ handlersC02 ++ handlersC03 ++ handlersC05 ++ handlersC05j ++ handlersC05t ++ handlersC05w ++ handlersC05h ++ handlersC06 ++ handlersC07 ++ handlersC08 ++ handlersC08p ++ handlersC09 ++ handlersC10 ++ handlersC11 ++ handlersC12 ++ handlersC13 ++ handlersC13G ++ handlersC14 ++ handlersC15 ++ handlersC16 ++ handlersC17 ++ handlersC18 ++ handlersC19 ++ handlersC20
 
 def handle (line : String) : String :=
   match (line.trimAscii.toString.splitOn " ").filter (· ≠ "") with
